@@ -7,6 +7,7 @@ import (
 	"os"
 
 	"verifharness/internal/c06"
+	"verifharness/internal/c08"
 	"verifharness/internal/c14"
 	"verifharness/internal/c15"
 	"verifharness/internal/c16"
@@ -20,6 +21,7 @@ type sub func(tier string, seed int64, outDir string) *common.Meta
 
 var subs = map[string]sub{
 	"c06": c06.Run,
+	"c08": c08.Run,
 	"c14": c14.Run,
 	"c15": c15.Run,
 	"c16": c16.Run,
